@@ -40,6 +40,12 @@ struct Scenario {
     /// only evaluate the fork-point estimate (no message exchange)
     #[serde(default)]
     estimate_only: bool,
+    /// the peer held the syncing node's branch first and reorganised onto its own (side blocks at every height of the fork)
+    #[serde(default)]
+    b_knows_a: bool,
+    /// this many block fetches fail once before they are served (transient failures)
+    #[serde(default)]
+    fails: usize,
 }
 fn dg() -> u64 {
     200
@@ -209,8 +215,17 @@ fn run(rt: &tokio::runtime::Runtime, scn: &Scenario, k: usize, trace: &mut Trace
         for blk in ch.prefix.iter().chain(ch.a.iter()) {
             nodes[A].node.add_block(over_the_wire(blk)).await;
         }
-        for blk in ch.prefix.iter().chain(ch.b.iter()) {
-            nodes[B].node.add_block(over_the_wire(blk)).await;
+        if scn.b_knows_a {
+            for blk in ch.prefix.iter().chain(ch.a.iter()) {
+                nodes[B].node.add_block(over_the_wire(blk)).await;
+            }
+            for blk in ch.b.iter() {
+                nodes[B].node.add_block(over_the_wire(blk)).await;
+            }
+        } else {
+            for blk in ch.prefix.iter().chain(ch.b.iter()) {
+                nodes[B].node.add_block(over_the_wire(blk)).await;
+            }
         }
     });
     let (ida, ha) = tip(rt, &nodes[A]);
@@ -249,6 +264,7 @@ fn run(rt: &tokio::runtime::Runtime, scn: &Scenario, k: usize, trace: &mut Trace
     let mut ticks = 0usize;
     let mut res = "ok".to_string();
     let mut fetched_ids: Vec<u64> = vec![];
+    let mut fails_left = scn.fails;
     wd.pet(&format!("scn {} init", k));
     let r0 = guarded(|| {
         rt.block_on(async {
@@ -331,6 +347,12 @@ fn run(rt: &tokio::runtime::Runtime, scn: &Scenario, k: usize, trace: &mut Trace
                             nodes[1 - req].node.io.files().iter().find(|(name, _)| name.ends_with(&suffix)).map(|(_, v)| v.clone())
                         };
                         fetched_ids.push(id);
+                        let buf = if fails_left > 0 && r.gen_bool(0.5) {
+                            fails_left -= 1;
+                            None
+                        } else {
+                            buf
+                        };
                         let ev = match buf {
                             Some(buffer) if !buffer.is_empty() => NetworkEvent::BlockFetched { block_hash: hash, block_id: id, peer_index: peer, buffer },
                             _ => NetworkEvent::BlockFetchFailed { block_hash: hash, peer_index: peer, block_id: id },
